@@ -239,9 +239,11 @@ CLAIMED = {
             "the seed messages carry exactly the generator's 32 bytes, indexed, once; unlock only for an onboarded "
             "bootloader; PIN policy unless any-PIN; public keys asked for the six documented paths and written "
             "as the device returned them.",
-            "'when the preconditions hold the operation is carried out', the change-PIN preconditions and the "
-            "public-key output are decided by the exhaustive grid (correspondence + oracle); seed freshness is "
-            "not a theorem"),
+            "'when the preconditions hold the operation is carried out' is a theorem for onboarding on a Ledger "
+            "(onboard_carried_out: exact message sequence - the random source's 32 seed bytes, the length-prefixed "
+            "PIN, the wipe - and a normal end); for unlock / change-PIN / public keys, the change-PIN preconditions "
+            "and the public-key output it is decided by the exhaustive grid (correspondence + oracle); seed "
+            "freshness (that os.urandom is random) is not a theorem"),
     "C19": ("Lean theorems about ledgerblue's Intel-HEX parser as used by compute_app_hash: for every file the "
             "parser accepts, the areas it returns are sorted by start address (sorted insertion invariant, by "
             "induction over the records), so the hash is over the data areas in address order whatever the order "
